@@ -92,6 +92,14 @@ pub fn unify(state: &mut TypeCheckerState, watchdog: &DynWatchdog) -> Result<()>
             let mut inferred_expressions: VecDeque<_> = inferences.into_iter().collect();
             #[cfg(smlxl_storage_layout_extractor_verif)]
             crate::verif_hooks::order_deque("unify.fold", &mut inferred_expressions);
+
+            // Dynamic bytes and dynamic arrays absorb words without remembering them, so the
+            // result of the fold can depend on the order in which the expressions meet. The
+            // set has no order of its own, so we fold in a fixed one: words meet each other
+            // first, and the absorbing types come last.
+            inferred_expressions
+                .make_contiguous()
+                .sort_by_cached_key(|expression| (fold_rank(expression), format!("{expression:?}")));
             let mut current = inferred_expressions
                 .pop_front()
                 .expect("We know there is at least one item in the expressions queue");
@@ -573,6 +581,21 @@ pub fn merge(left: TE, right: TE, parent_tv: TypeVariable, state: &mut TypeCheck
 
         // Nothing else can combine and be valid, so we return a typing conflict
         _ => Merge::expression(TE::conflict(left, right, "Incompatible inferences")),
+    }
+}
+
+/// The position of `expression` in the fixed order in which the expressions of one
+/// equivalence class are folded together.
+fn fold_rank(expression: &TE) -> u8 {
+    match expression {
+        TE::Any | TE::Equal { .. } => 0,
+        TE::Word { .. } => 1,
+        TE::FixedArray { .. } => 2,
+        TE::Mapping { .. } => 3,
+        TE::Packed { .. } => 4,
+        TE::DynamicArray { .. } => 5,
+        TE::Bytes => 6,
+        TE::Conflict { .. } => 7,
     }
 }
 
